@@ -468,7 +468,18 @@ def h_seqwf(shape):
         from pulser.pulse import Pulse
         from pulser.waveforms import BlackmanWaveform, ConstantWaveform, KaiserWaveform, RampWaveform
 
-        seq = l2.new_seq("virt")
+        if shape.get("minavg"):
+            # a channel with a minimum average amplitude (symbolic) and a coarse clock
+            import pulser
+            from pulser.channels import Rydberg
+            from pulser.devices import VirtualDevice
+
+            dev = VirtualDevice(name="minavg", dimensions=2, rydberg_level=60, channel_ids=("ryd_glob",), channel_objects=(
+                Rydberg.Global(250.0, 100.0, clock_period=shape["minavg"], min_duration=4, max_duration=10000,
+                               min_avg_amp=inp.real("min_avg_amp", 0, 50)),))
+            seq = pulser.Sequence(l2.mk_register("reg3"), dev)
+        else:
+            seq = l2.new_seq("virt")
         l2.run_prefix(inp, seq, [["declare", "g", "ryd_glob"]])
         ch = seq.declared_channels["g"]
         d = shape["d"]
@@ -499,6 +510,11 @@ def h_seqwf(shape):
         clock = ch.clock_period
         up = d + ((-d) % clock)
         val_in = AND(*[x <= ch.max_amp for x in samples_in], abs(det) <= ch.max_abs_detuning)
+        if shape.get("minavg"):
+            tin = 0
+            for x in samples_in:
+                tin = tin + x
+            val_in = AND(val_in, OR(tin == 0, tin >= ch.min_avg_amp * len(samples_in)))
         obs = []
         if ok:
             sl = seq._schedule["g"].slots[-1]
@@ -509,6 +525,12 @@ def h_seqwf(shape):
             obs.append(("seqwf:scheduled_within_value_limits", AND(*[x <= ch.max_amp + 1e-9 for x in out], *[x >= -1e-9 for x in out],
                                                                     abs(det) <= ch.max_abs_detuning + 5e-7)))
             obs.append(("seqwf:scheduled_only_lengthened", AND(same(p.amplitude), facade._unwrap0(p.detuning._value) == det)))
+            if shape.get("minavg"):
+                tot = 0
+                for x in out:
+                    tot = tot + x
+                # "nor below the minimum average when non-zero": the average of the pulse AS SCHEDULED
+                obs.append(("seqwf:scheduled_average_not_below_min_avg_amp", OR(tot <= 1e-9, tot >= ch.min_avg_amp * len(out) - 1e-9)))
         else:
             obs.append(("seqwf:inside_is_accepted", NOT(val_in)))
         return obs
@@ -587,6 +609,9 @@ def kernels(tier):
         ks.append(("seqwf", dict(wf="kaiser", d=d, beta=14.0)))
         ks.append(("seqwf", dict(wf="blackman", d=d)))
         ks.append(("seqwf", dict(wf="ramp", d=d)))
+    for wfk in ("blackman", "ramp"):
+        ks.append(("seqwf", dict(wf=wfk, d=17, minavg=16)))
+        ks.append(("seqwf", dict(wf=wfk, d=16, minavg=16)))
     return ks
 
 
